@@ -285,7 +285,7 @@ fn pre_answer_reused(p: &Preprocessor, ctx: &mut PreprocessorContext, out: &mut 
         Ok(_) => {
             let mut labels: Vec<(String, usize)> = ctx.label_map.iter().map(|(k, v)| (k.clone(), v.map as usize)).collect();
             labels.sort();
-            let mut undef: Vec<(usize, String)> = ctx.undefined_labels.iter().cloned().collect();
+            let mut undef: Vec<(usize, String)> = ctx.undefined_labels.iter().map(|e| crate::pipe::UndefEntry::entry(e)).collect();
             undef.sort();
             format!("Ok code={:?} data={:?} labels={:?} undef={:?}", out.code, out.data, labels, undef)
         }
